@@ -1311,7 +1311,7 @@ class Parser:
                     key = Identifier("get")
                     params = self._parse_function_params()
                     body = self._parse_block_statement()
-                    value = FunctionExpression(None, params, body)
+                    value = FunctionExpression(None, params, body, is_method=True)
                     return Property(key, value, "init", computed=False)
                 else:
                     # get: value or {get} shorthand
@@ -1334,7 +1334,7 @@ class Parser:
                     key = Identifier("set")
                     params = self._parse_function_params()
                     body = self._parse_block_statement()
-                    value = FunctionExpression(None, params, body)
+                    value = FunctionExpression(None, params, body, is_method=True)
                     return Property(key, value, "init", computed=False)
                 else:
                     key = Identifier("set")
@@ -1373,7 +1373,7 @@ class Parser:
             # Getter/setter - value is a function
             params = self._parse_function_params()
             body = self._parse_block_statement()
-            value = FunctionExpression(None, params, body)
+            value = FunctionExpression(None, params, body, is_method=True)
         elif self._match(TokenType.LPAREN):
             # Method shorthand: {foo() { }}
             params = []
@@ -1387,7 +1387,7 @@ class Parser:
                         break
             self._expect(TokenType.RPAREN, "Expected ')' after parameters")
             body = self._parse_block_statement()
-            value = FunctionExpression(None, params, body)
+            value = FunctionExpression(None, params, body, is_method=True)
         elif self._match(TokenType.COLON):
             value = self._parse_assignment_expression()
         else:
